@@ -78,6 +78,11 @@ class Check:
             arcs.append(p)
         if sub == "list":
             d = rng.choice(dirs)
+            if rng.random() < 0.3 and arcs:
+                # a link with an archive name to an archive (deploy/current.jar -> app.jar): searched through the link
+                tgt = rng.choice(arcs)
+                lp = os.path.dirname(tgt) + "/cur%d.%s" % (len(arcs), rng.choice(["jar", "zip"]))
+                world["nodes"].append({"path": lp, "type": "symlink", "target": os.path.basename(tgt)})
             if rng.random() < 0.4:
                 world["nodes"].append({"path": d + "/hidden_zip.dat", "type": "file", "zip": {"members": gen_members(rng, 3)}})
             if rng.random() < 0.4:
@@ -136,15 +141,23 @@ class Check:
     def member_rows(self, world, top, nm):
         """Expected (path, name, size, is_dir, modified, mode-or-None) for every member of every searched archive."""
         out = []
+        sources = []
         for n in world["nodes"]:
             if n["type"] == "file" and "zip" in n and is_zip_name(n["path"].rsplit("/", 1)[-1]) and "trunc" not in n and not n.get("flip"):
+                sources.append((n["path"], n))
+            elif n["type"] == "symlink" and is_zip_name(n["path"].rsplit("/", 1)[-1]):
+                t = nm.get(os.path.normpath(os.path.join(os.path.dirname(n["path"]), n["target"])))
+                if t is not None and t["type"] == "file" and "zip" in t and "trunc" not in t and not t.get("flip"):
+                    sources.append((n["path"], t))
+        for apath, n in sources:
+            if True:
                 for m in n["zip"]["members"]:
                     isdir = m["name"].endswith("/")
                     size = 0 if isdir else (len(m["data"]) if "data" in m else m.get("size", 0))
                     d = m.get("date", [2020, 1, 2, 3, 4, 6])
                     # the mode string is asserted when the archive stores a unix mode *with* file-type bits
                     mode = statmod.filemode(m["mode"]) if m.get("mode") is not None and (m["mode"] & 0o170000) else None
-                    out.append((("[%s] %s" % (n["path"], m["name"])).encode("utf-8"), ("[%s] %s" % (n["path"].rsplit("/", 1)[-1], m["name"])).encode("utf-8"),
+                    out.append((("[%s] %s" % (apath, m["name"])).encode("utf-8"), ("[%s] %s" % (apath.rsplit("/", 1)[-1], m["name"])).encode("utf-8"),
                                 str(size).encode(), b"true" if isdir else b"false", ("%04d-%02d-%02d %02d:%02d:%02d" % tuple(d)).encode(), mode.encode() if mode else None))
         return out
 
